@@ -467,9 +467,11 @@ ALPHA_TYPES = [6, 32802, 32512, 65280, 8, 28, 32808, 36, 0]
 LETTER_TYPES = [6, 6, 32802, 32802, 32512, 65280, 8, 8, 28, 28, 28, 32808, 32808, 32808, 32808, 36, 32802, 65280, 6, 0, 8, 28]
 
 
-def gen_messages(n, seed, wd, maxattrs=5, tag="gen", nbig=0):
+def gen_messages(n, seed, wd, maxattrs=5, tag="gen", nbig=0, nmany=None):
     p = os.path.join(wd, "%s.ndjson" % tag)
-    run_harness(["gen", str(n), str(seed), p, str(maxattrs), str(nbig)])
+    if nmany is None:
+        nmany = min(10, max(2, n // 40))      # a few messages with dozens of small attributes in every generated set
+    run_harness(["gen", str(n), str(seed), p, str(maxattrs), str(nbig), str(nmany)])
     r = read_ndjson(p)
     os.remove(p)
     return r
@@ -713,6 +715,47 @@ def bursts(b, rng, per_len):
             yield m, "burst len %d at bit %d" % (L, start)
 
 
+def systematic_fp_mutants(g, rng):
+    """the places where a checksum check is most easily fooled: the length field (every value of its two bytes, the
+    declared length +-1..8), the CRC value itself (every pair of bit flips inside it, several bytes changed at once) and
+    other ways to 'compute the same checksum' (without the final XOR constant, complemented, byte-reversed)"""
+    b = g["bytes"]
+    n = len(b)
+    out = []
+    def add(m, what):
+        if m != b:
+            out.append({"bytes": m, "mode": "verdict", "src": "message %d, %s" % (g["id"], what)})
+    for pos in (2, 3):
+        for v in range(256):
+            m = list(b)
+            m[pos] = v
+            add(m, "length byte %d := %d" % (pos, v))
+    L = b[2] * 256 + b[3]
+    for dlt in list(range(-8, 0)) + list(range(1, 9)):
+        if 0 <= L + dlt < 65536:
+            m = list(b)
+            m[2], m[3] = (L + dlt) >> 8, (L + dlt) & 255
+            add(m, "length field %+d" % dlt)
+    for i in range(32):
+        for j in range(i + 1, 32):
+            m = list(b)
+            m[n - 4 + i // 8] ^= 1 << (7 - i % 8)
+            m[n - 4 + j // 8] ^= 1 << (7 - j % 8)
+            add(m, "CRC value bits %d and %d flipped" % (i, j))
+    crc = b[n - 4:]
+    xc = [0x53, 0x54, 0x55, 0x4e]
+    for what, val in (("XOR 0x5354554e", [crc[i] ^ xc[i] for i in range(4)]), ("complemented", [x ^ 0xff for x in crc]),
+                      ("byte-reversed", crc[::-1]), ("XOR 0x5354554e, byte-reversed", [crc[i] ^ xc[i] for i in range(4)][::-1]),
+                      ("XOR 0x4e555453", [crc[i] ^ xc[3 - i] for i in range(4)]), ("zero", [0, 0, 0, 0]), ("the constant itself", xc)):
+        add(b[:n - 4] + val, "CRC value %s" % what)
+    for _ in range(100):
+        m = list(b)
+        for k in rng.sample(range(4), rng.choice([2, 3, 4])):
+            m[n - 4 + k] ^= rng.choice([1, 2, 4, 8, 16, 32, 64, 128, 0x81, 0xff])
+        add(m, "several CRC bytes changed")
+    return out
+
+
 def c09(rep, tier, seed, wd):
     rng = random.Random(seed)
     nmsg = 14 if tier == "quick" else 150
@@ -721,6 +764,10 @@ def c09(rep, tier, seed, wd):
     # builder-appended and externally computed fingerprints, with and without integrity attributes
     gm.sort(key=lambda g: (g["gen"]["by_ext"], g["gen"]["seal"]))
     pick = gm[::max(1, len(gm) // nmsg)][:nmsg]
+    # messages with dozens of attributes in front of the FINGERPRINT (any size): sampled corruption only
+    crowded = [g for g in gen_messages(400 if tier == "quick" else 4000, seed + 4, wd, maxattrs=3)
+               if g["gen"]["seal"] & 4 and len(g["gen"]["attrs"]) > 16][:(3 if tier == "quick" else 10)]
+    gm += [g for g in crowded if g not in gm]
     base = [{"bytes": g["bytes"], "src": "fingerprinted message %d (%s, seal=%d)" % (g["id"], "external" if g["gen"]["by_ext"] else "builder", g["gen"]["seal"])} for g in gm]
     muts = []
     for g in pick:
@@ -736,6 +783,21 @@ def c09(rep, tier, seed, wd):
                 m = list(b)
                 m[pos] = v
                 muts.append({"bytes": m, "mode": "verdict", "src": "message %d, byte %d := %d" % (g["id"], pos, v)})
+        if pick.index(g) % (5 if tier == "quick" else 2) == 0:
+            muts += systematic_fp_mutants(g, rng)
+    for g in crowded:
+        b = g["bytes"]
+        na = len(g["gen"]["attrs"])
+        for _ in range(400 if tier == "quick" else 1500):
+            i = rng.randrange(len(b) * 8)
+            m = list(b)
+            m[i // 8] ^= 1 << (7 - i % 8)
+            muts.append({"bytes": m, "mode": "verdict", "src": "message %d (%d attributes), bit %d flipped" % (g["id"], na, i)})
+        for m, what in bursts(b, rng, 3):
+            muts.append({"bytes": m, "mode": "verdict", "src": "message %d (%d attributes), %s" % (g["id"], na, what)})
+        if crowded.index(g) == 0 or tier != "quick":
+            muts += systematic_fp_mutants(g, rng)
+    pick = pick + crowded
     # a parser is a function of the buffer alone: give a stateful one the chance to show - every now and then the
     # intact original is parsed right before its corrupted copies (same adapter process and thread)
     seq = list(base)
@@ -888,6 +950,17 @@ def attr_cases(tier, rng):
     punct = [0x22, 0x27, 0x20, 0x3a, 0x5c, 0x25, 0x7b, 0x7d, 0x2e, 0x2f, 0x40, 0x0a, 0x09, 0x61]
     shorts = [(b,) for b in range(256)] + list(itertools.product(punct, repeat=2)) + \
              [tuple(rng.choice(punct) for _ in range(3)) for _ in range(150 if tier == "quick" else 2000)]
+    # text with leading / trailing bytes that "lenient" decoders trim or normalise (NUL, blank, tab, line ends, BOM,
+    # upper case, non-breaking space) at every length residue modulo 4
+    edge = [[0], [0x20], [0x09], [0x0a], [0x0d, 0x0a], [0xef, 0xbb, 0xbf], [0xc2, 0xa0], [0x41], [0xe2, 0x80, 0xa8]]
+    for core_len in range(0, 6):
+        core = [0x61 + i for i in range(core_len)]
+        for e in edge:
+            for rep in (1, 2, 3, 4):
+                shorts.append(tuple(core + e * rep))
+                shorts.append(tuple(e * rep + core))
+            shorts.append(tuple(e + core + e))
+            shorts.append(tuple(core[:2] + e + core[2:]))
     for ty in TEXT_TYPES:
         for v in shorts:
             add(ty, list(v), src="short text")
